@@ -14,9 +14,9 @@ LEVEL = "exploration"
 CHUNK = 32
 RULE = ("complete product contexts x consuming positions x nullable producers x T (must be rejected), the dual accepting set, and all "
         "49 assignment-path combinations of two non-nullable fields in a constructor; expectation by construction; distinct by source text")
-ASSUMPTIONS = ["T ranges over Int, Str and a user class; producers: None, a T? variable (holding None or a value), a T?-returning call, an if-expression with a None branch, a nullable field"]
+ASSUMPTIONS = ["T ranges over Int, Str, a user class and the tuple type (Int, Int); producers: None, a T? variable (holding None or a value), a T?-returning call, an if-expression with a None branch, a nullable field"]
 
-VAL = {"Int": "1", "Str": '"s"', "A": "A()", "B": "B()", "Float": "1.5"}
+VAL = {"(Int, Int)": "(1, 2)", "Int": "1", "Str": '"s"', "A": "A()", "B": "B()", "Float": "1.5"}
 BASE = ["class A", "    def ma(self) -> Int => 1", "class B: A", "    def mb(self) -> Int => 2"]
 # (type of the nullable value, non-nullable type of the consuming position)
 PAIRS = [("Int", "Int"), ("Str", "Str"), ("A", "A"), ("Int", "Float"), ("B", "A")]
@@ -65,7 +65,7 @@ def payloads(tier):
             add("anc-ctor-argument", pre, setup + ["def pco := PC(%s)" % p], False, tg, n)
             add("anc-return", pre + ["def rt() -> %s =>" % P0] + ctxgen.indent(setup + ["return %s" % p]), ["rt()"], False, tg, ("prelude", len(pre) + 1 + n))
             add("anc-dual-init-nullable", pre, setup + ["def x: %s? := %s" % (P0, p)], True, tg)
-    for T in ("Int", "Str", "A"):
+    for T in ("Int", "Str", "A", "(Int, Int)"):
         v = VAL[T]
         pre = prelude(T)
         for pname, setup, p in producers(T):
